@@ -271,9 +271,14 @@ class FastNetNeuronCommunicator(FastSerialCommunicator):
             return
 
         hw_states = {}
-        _, raw_switch_data = msg.split(',')
+        byte_count, raw_switch_data = msg.split(',')
+        switch_bytes = bytearray.fromhex(raw_switch_data)
 
-        for offset, byte in enumerate(bytearray.fromhex(raw_switch_data)):
+        if len(switch_bytes) != int(byte_count, 16):
+            # a truncated report would update only some of the switches: skip it as a whole
+            raise ValueError(f"SA: report announces {byte_count} bytes but carries {len(switch_bytes)}")
+
+        for offset, byte in enumerate(switch_bytes):
             for i in range(8):
 
                 num = (offset * 8) + i
